@@ -73,7 +73,7 @@ def build_family(w: World, fi: int, built: dict, switches: dict):
         sw = eng.RtSwitch()
         sw.cur = eng.Runtime(fam.scn)       # a sink until a member is active
         cls, model_cls, listeners = eng.build(fam.scn, sw, cls_name=fam.cls_name, picklable=bool(w.clones))
-        built[fi] = (cls, model_cls, {k: type(v) for k, v in listeners.items()})
+        built[fi] = (cls, model_cls, dict(cls._verif_listener_factories))
         switches[fi] = sw
         return built[fi]
     bcls, bmodel, blst = build_family(w, fam.base, built, switches)
@@ -96,8 +96,8 @@ def build_family(w: World, fi: int, built: dict, switches: dict):
         cls = type(bcls)(fam.cls_name, (bcls,), ns)
     model_cls = type("Mdl", (bmodel,), model_ns)
     lst = dict(blst)
-    for p in sorted(set(listener_ns) | {c.provider for c in fam.scn.cbs if c.provider.startswith("L")}):
-        lst[p] = type("Lst_" + p, (blst[p],) if p in blst else (), listener_ns.get(p, {}))
+    for p in sorted(set(listener_ns)):
+        lst[p] = type("Lst_" + p, (blst[p],) if isinstance(blst.get(p), type) else (), listener_ns.get(p, {}))
     built[fi] = (cls, model_cls, lst)
     return built[fi]
 
@@ -226,7 +226,7 @@ def run_world(w: World, only=None):
             rt.bound = type("Bound", (), {})()
             clone.bind_events_to(rt.bound)
             ls = getattr(clone, "_listeners", None)
-            if isinstance(ls, dict):
+            if isinstance(ls, (dict, list)):
                 rt.owner_ids = {id(clone), id(clone.model)} | {id(x) for x in ls}
             shared = []
             if clone is sm:
@@ -234,7 +234,7 @@ def run_world(w: World, only=None):
             if clone.model is sm.model:
                 shared.append("model")
             ols = getattr(sm, "_listeners", None)
-            if isinstance(ls, dict) and isinstance(ols, dict):
+            if isinstance(ls, (dict, list)) and isinstance(ols, (dict, list)):
                 if {id(x) for x in ls} & {id(x) for x in ols}:
                     shared.append("listener")
                 if len(ls) != len(ols):
@@ -284,6 +284,15 @@ def run_world(w: World, only=None):
 # ----------------------------------------------------------------------------- generation
 
 def _redraw_sigs(rng, scn: eng.Scn, flip_coro=False):
+    _redraw(rng, scn, flip_coro)
+    prim = {c.id: c for c in scn.cbs}
+    for c in scn.cbs:          # a name attached to several groups is one function
+        if c.alias_of:
+            q = prim[c.alias_of]
+            c.sig, c.named, c.coro, c.yields = q.sig, q.named, q.coro, q.yields
+
+
+def _redraw(rng, scn: eng.Scn, flip_coro=False):
     for c in scn.cbs:
         c.sig = rng.choice(("ed", "named", "kwargs", "bare"))
         c.named = tuple(k for k in ("event", "source", "target", "state") if rng.random() < 0.5) if c.sig == "named" else ()
